@@ -526,9 +526,10 @@ def child_main():
     import time
     job = json.load(sys.stdin)
     path = wbk.write_xlsx(timed_model(job['family'], job['size']))
-    t0 = time.perf_counter()
+    # processor time of this child, not wall time: the growth rule must not depend on how loaded the machine is
+    t0 = time.process_time()
     o = wbk.outcome(lambda: wbk.translate_path(path), timeout=3600)
-    json.dump({'outcome': o[0] if o[0] != 'lib' else 'lib:' + o[1], 'detail': (o[1] if o[0] == 'foreign' else ''), 'elapsed': time.perf_counter() - t0}, sys.stdout)
+    json.dump({'outcome': o[0] if o[0] != 'lib' else 'lib:' + o[1], 'detail': (o[1] if o[0] == 'foreign' else ''), 'elapsed': time.process_time() - t0}, sys.stdout)
 
 
 def run_timed_point(name, d):
@@ -573,8 +574,8 @@ def run_timed_family(name, dmax, rec):
         if len(hist) >= 4:
             last = hist[-4:]
             ratios = [last[i + 1][1] / max(last[i][1], 1e-3) for i in range(3)]
-            if all(x > 1.7 for x in ratios) and last[-1][1] > 2.0:
-                fails.append({'case': case, 'expected': 'time(d+1)/time(d) < 1.7', 'actual': last, 'relation': 'translation-terminates',
+            if (all(x > 1.7 for x in ratios) or last[-1][1] / max(last[0][1], 1e-3) > 5.0) and last[-1][1] > 2.0:
+                fails.append({'case': case, 'expected': 'processor time(d+1)/time(d) < 1.7 (and time(d+3)/time(d) < 5)', 'actual': last, 'relation': 'translation-terminates',
                               'bucket': f'timed:{name}:growth', 'extra': {'ratios': ratios}})
                 break
     if rec is not None and hist:
